@@ -77,14 +77,182 @@ def _alts(v: Optional[ast.AST], guards: Optional[Guards] = None) -> List[Tuple[G
     return [(guards, v)]
 
 
-def _def_alts(cfg: CFG, at: Optional[Node], name: str) -> List[Tuple[Guards, Optional[ast.AST], Node]]:
+def _def_alts(cfg: CFG, at: Optional[Node], name: str, paths: bool = False) -> List[Tuple[Guards, Optional[ast.AST], Node]]:
     """(guards, value, definition node) for every value the local `name` may hold at node `at`: one entry per reaching definition and per alternative
     of a conditional expression, each with the branch outcomes under which it is bound.  `x = a if c else b` and `if c: x = a` / `else: x = b`
-    give the same list (value None = not a plain binding)."""
+    give the same list (value None = not a plain binding).  With `paths` the guards are stated for the USE: temporaries in them are replaced by their
+    definitions and the branch outcomes every path from the definition to `at` has taken are added (`x = a` / `if c: x = b` / use(x): a under not c)."""
     out = []
     for d in (cfg.defs_reaching(at, name) if at is not None else []):
+        if paths:
+            here = [(_subst_temps(cfg, t, g), pol) for g, pol, t in cfg.guards_at(d)] + _reach_guards(cfg, d, at, name)
+            out += [([(_subst_temps(cfg, d, g), pol) if i >= len(here) else (g, pol) for i, (g, pol) in enumerate(gs)], v, d)
+                    for gs, v in _alts(cfg.value_of_def(d, name), here)]
+            continue
         here = [(g, pol) for g, pol, _ in cfg.guards_at(d)]
         out += [(gs, v, d) for gs, v in _alts(cfg.value_of_def(d, name), here)]
+    return out
+
+
+def _same_operands(cfg: CFG, v: ast.AST, d: Node, at: Node) -> bool:
+    """Do the names / attribute chains read by expression v (evaluated at d) still have the same definitions at node `at`?"""
+    for x in ast.walk(v):
+        if isinstance(x, (ast.Name, ast.Attribute)):
+            k = dotted(x)
+            if "?" not in k and {n.id for n in cfg.defs_reaching(d, k)} != {n.id for n in cfg.defs_reaching(at, k)}:
+                return False
+    return True
+
+
+_PURE = (ast.Name, ast.Attribute, ast.Subscript, ast.Constant, ast.BinOp, ast.UnaryOp, ast.Compare, ast.BoolOp, ast.Tuple, ast.Slice,
+         ast.expr_context, ast.operator, ast.unaryop, ast.cmpop, ast.boolop)
+
+
+def _temp_value(cfg: CFG, at: Optional[Node], e: ast.AST, pure: bool = True) -> Optional[Tuple[ast.AST, Node]]:
+    """(defining expression, definition node) of a local that is a single-definition temporary at node `at` whose operands are unchanged since:
+    reading the local is reading the expression.  `pure`: only expressions without calls (safe to substitute anywhere); otherwise any expression
+    (enough for the truth value of a guard: the flag was computed from it)."""
+    if not isinstance(e, ast.Name) or at is None:
+        return None
+    ds = cfg.defs_reaching(at, e.id)
+    if len(ds) != 1 or ds[0].kind != "stmt" or ds[0] is at:
+        return None
+    v = cfg.value_of_def(ds[0], e.id)
+    if v is None or hasattr(v, "_unpack_len") or (pure and not all(isinstance(x, _PURE) for x in ast.walk(v))):
+        return None
+    if any(isinstance(x, (ast.NamedExpr, ast.Await, ast.Yield, ast.YieldFrom, ast.Lambda)) for x in ast.walk(v)) or not _same_operands(cfg, v, ds[0], at):
+        return None
+    return v, ds[0]
+
+
+def _subst_temps(cfg: CFG, at: Optional[Node], e: ast.AST, depth: int = 0) -> ast.AST:
+    """e with every single-definition temporary (call-free definition, operands unchanged) replaced by its definition: `v = d[k]` ... `f(v)` reads as `f(d[k])`."""
+    if at is None or depth > 6:
+        return e
+
+    class _T(ast.NodeTransformer):
+        def visit_Name(self, x: ast.Name) -> ast.AST:
+            tv = _temp_value(cfg, at, x) if isinstance(x.ctx, ast.Load) else None
+            return x if tv is None else _subst_temps(cfg, tv[1], tv[0], depth + 1)
+
+        def visit_Lambda(self, x: ast.Lambda) -> ast.AST:
+            return x
+
+    import copy
+    return _T().visit(copy.deepcopy(e))
+
+
+def _region_avoiding(starts: List[Node], avoid: Set[int]) -> Set[int]:
+    seen: Set[int] = set()
+    st = [s for s in starts if s is not None]
+    while st:
+        x = st.pop()
+        if x.id in seen or x.id in avoid:
+            continue
+        seen.add(x.id)
+        st.extend(x.succ)
+    return seen
+
+
+def _reach_guards(cfg: CFG, d: Node, at: Node, name: str) -> Guards:
+    """Branch outcomes known whenever definition d of `name` is the one read at node `at`: for an `if` test t passed on every path from d to `at`
+    (d dominates t, t dominates `at`), the outcome is known when `at` is reachable from only one of its branches without passing another binding of
+    `name` (or the test again).  `x = a` / `if c: x = b` / use(x) reads a only under `not c`."""
+    kill = {n.id for n in cfg.live_nodes() if n is not d and any(k == name and strong for k, strong in cfg.defs_at(n))}
+    out: Guards = []
+    for t in cfg.live_nodes():
+        if t.kind != "test" or not isinstance(t.stmt, ast.If) or t.true_succ is None or t is at or t is d:
+            continue
+        if not (cfg.dominates(d, t) and cfg.dominates(t, at)):
+            continue
+        others = [t.false_succ] if t.false_succ is not None else [s for s in t.succ if s is not t.true_succ and s.id not in t.exc_succ]
+        via_t = at.id in _region_avoiding([t.true_succ], kill | {t.id})
+        via_f = at.id in _region_avoiding(others, kill | {t.id})
+        if via_t != via_f:
+            out.append((_subst_temps(cfg, t, t.ast), via_t))
+    return out
+
+
+def _value_alts(cfg: CFG, at: Optional[Node], e: Optional[ast.AST], guards: Optional[Guards] = None, depth: int = 0) -> List[Tuple[Guards, Optional[ast.AST], Optional[Node]]]:
+    """(guards, expression, node it is evaluated at) for every expression the value `e` read at node `at` may stand for: locals are followed through
+    their reaching definitions (each with the outcomes it is bound and read under), conditional expressions through both arms; a value passed
+    directly, through a temporary or through a chain of temporaries gives the same list."""
+    guards = list(guards or [])
+    if isinstance(e, ast.IfExp):
+        return _value_alts(cfg, at, e.body, guards + [(_subst_temps(cfg, at, e.test), True)], depth + 1) + \
+            _value_alts(cfg, at, e.orelse, guards + [(_subst_temps(cfg, at, e.test), False)], depth + 1)
+    if isinstance(e, ast.Name) and at is not None and depth < 6:
+        alts = _def_alts(cfg, at, e.id, paths=True)
+        if alts and all(v is not None and not hasattr(v, "_unpack_len") and d.kind == "stmt" for _, v, d in alts):
+            out = []
+            for gs, v, d in alts:
+                out += _value_alts(cfg, d, v, guards + gs, depth + 1) if isinstance(v, ast.Name) else [(guards + gs, v, d)]
+            return out
+    return [(guards, e, at)]
+
+
+def _guard_facts(cfg: CFG, node: Optional[Node]) -> List[Tuple[str, bool]]:
+    """(atom text, polarity) for every atomic condition known to hold at `node`.  Conjunctions are split; a guard that is a single-definition flag
+    (`flag = a and b` ... `if flag:`) stands for the conjuncts of its definition; a disjunction of which all members but one are refuted by the other
+    facts yields that member (`if f and s: ... elif f: HERE` gives f and not s, like `if f: if s: ... else: HERE`)."""
+    from ..domains import conjuncts
+    if node is None:
+        return []
+    units: List[Tuple[ast.AST, bool]] = []
+    clauses: List[Tuple[List[Tuple[ast.AST, bool]], Node]] = []
+
+    def key(a: ast.AST, p: bool) -> Tuple[str, bool]:
+        return _facts([(a, p)])[0]
+
+    def add(e: ast.AST, pol: bool, t: Node, depth: int = 0) -> None:
+        for a, p in conjuncts(e, pol):
+            tv = _temp_value(cfg, t, a, pure=False) if depth < 6 else None
+            if tv is not None:
+                add(tv[0], p, tv[1], depth + 1)
+            elif isinstance(a, ast.BoolOp):
+                # (a and b) known false = not a or not b; (a or b) known true
+                clauses.append(([(v, p) for v in a.values], t))
+            else:
+                units.append((a, p))
+
+    for g, pol, t in cfg.guards_at(node):
+        add(g, pol, t)
+    changed = True
+    while changed:
+        changed = False
+        known = {key(a, p) for a, p in units}
+        for cl in list(clauses):
+            lits, t = cl
+            open_ = []
+            def refuted(e: ast.AST, pol_: bool, t_: Node, depth: int = 0) -> bool:
+                """e (with polarity) is a conjunction of atoms, flags and disjunctions: refuted when an atom contradicts a known fact, a flag's
+                definition is refuted, or every member of a disjunction is."""
+                for a, q in conjuncts(e, pol_):
+                    tv = _temp_value(cfg, t_, a, pure=False) if depth < 6 else None
+                    if tv is not None:
+                        if refuted(tv[0], q, tv[1], depth + 1):
+                            return True
+                    elif isinstance(a, ast.BoolOp):
+                        if depth < 6 and all(refuted(v_, q, t_, depth + 1) for v_ in a.values):
+                            return True
+                    else:
+                        k, kp = key(a, q)
+                        if (k, not kp) in known:
+                            return True
+                return False
+
+            for v, p in lits:
+                if not refuted(v, p, t):
+                    open_.append((v, p))
+            if len(open_) == 1:
+                clauses.remove(cl)
+                add(open_[0][0], open_[0][1], t)
+                changed = True
+    out = []
+    for a, p in units:
+        k = (ast.unparse(a), p)
+        if k not in out:
+            out.append(k)
     return out
 
 
@@ -126,6 +294,11 @@ def _mask_atoms(tb: TermBuilder, fn: Fn, mask_param: str, at: Node) -> Set[str]:
     return out
 
 
+def _no_mask(facts: List[Tuple[str, bool]], mask_param: str) -> bool:
+    """Do the known conditions (atoms with polarity) say that no mask was passed?"""
+    return any((t.replace(" ", "") == f"{mask_param}isnotNone" and not p) or (t.replace(" ", "") == f"{mask_param}isNone" and p) for t, p in facts)
+
+
 def _discrete(ck: Check, repo: Repo, fn: Fn, mask_param: str) -> int:
     cfg = CFG(fn.node)
     tb = TermBuilder(repo, fn, cfg=cfg, depth=0)
@@ -137,17 +310,22 @@ def _discrete(ck: Check, repo: Repo, fn: Fn, mask_param: str) -> int:
         operand = c.args[0] if call_name(c) in ("np.argmax", "torch.argmax") and c.args else (c.func.value if isinstance(c.func, ast.Attribute) else None)
         if operand is None or node is None:
             continue
-        n += 1
-        gs = [(ast.unparse(g), pol) for g, pol, _ in cfg.guards_at(node)]
-        no_mask = (f"{mask_param} is None", True) in gs or (f"{mask_param} is not None", False) in gs
-        if no_mask:
-            ck.ob("C14.1", fn, c, True, f"{label}: without a mask the arg-max runs over all actions", construct=f"{label}: {short(c, 60)} [no mask]")
-            continue
-        masks = _mask_atoms(tb, fn, mask_param, node)
-        t = tb.term(operand, node)
-        ok, why = _operand_masked(tb, t, masks, operand, cfg, node)
-        ck.ob("C14.1", fn, c, ok, f"{label}: the arg-max operand has passed the action mask with the right polarity", detail=why,
-              construct=f"{label}: {short(c, 70)}")
+        here = _guard_facts(cfg, node)
+        # one arg-max site per PATH: an operand that is one value on the no-mask path and another one otherwise (`if mask is not None: v = masked(v)` /
+        # argmax(v)) is two sites, exactly like two arg-max calls in the two branches of `if mask is None`
+        paths = [(_facts(gs), v, d) for gs, v, d in _value_alts(cfg, node, operand)] if isinstance(operand, ast.Name) else []
+        if len(paths) < 2 or not any(_no_mask(f, mask_param) for f, _, _ in paths) or any(v is None for _, v, _ in paths):
+            paths = [([], operand, node)]
+        for facts, v, d in paths:
+            n += 1
+            if _no_mask(here + facts, mask_param):
+                ck.ob("C14.1", fn, c, True, f"{label}: without a mask the arg-max runs over all actions", construct=f"{label}: {short(c, 60)} [no mask]")
+                continue
+            masks = _mask_atoms(tb, fn, mask_param, node)
+            t = tb.term(v, d)
+            ok, why = _operand_masked(tb, t, masks, v, cfg, d)
+            ck.ob("C14.1", fn, c, ok, f"{label}: the arg-max operand has passed the action mask with the right polarity", detail=why,
+                  construct=f"{label}: {short(c, 70)}")
     return n
 
 
@@ -201,31 +379,44 @@ def _multi_discrete(ck: Check, repo: Repo, fn: Fn) -> int:
         node = cfg.node_of(c)
         n += 1
         recv = c.func.value
-        # the receiver: np.ma.array(action, mask=mask) with mask = 1 - np.array(action_masks[agent]) where that agent has a mask, None where it has none
-        # (a conditional expression or an if / else statement: every value the mask local may hold is inspected together with the branch outcomes it is bound under)
-        ok = False
-        why = "receiver is not a masked array"
-        for _, v, d in (_def_alts(cfg, node, recv.id) if isinstance(recv, ast.Name) else []):
-            if isinstance(v, ast.Call) and call_name(v) == "np.ma.array":
-                mk = get_kw(v, "mask", 1)
-                if isinstance(mk, ast.Name):
-                    vals = _def_alts(cfg, d, mk.id)
-
-                    def has_mask(gs: Guards, pol: bool) -> bool:
-                        return any(t.startswith(f"{am}[") and t.endswith("isnotNone") and p == pol for t, p in _facts(gs))
-                    hidden = [x is not None and ast.unparse(x).replace(" ", "").startswith(f"1-np.array({am}[") and has_mask(gs, True) for gs, x, _ in vals]
-                    absent = [isinstance(x, ast.Constant) and x.value is None and has_mask(gs, False) for gs, x, _ in vals]
-                    ok = any(hidden) and all(h or a for h, a in zip(hidden, absent))
-                    why = f"mask = {[(short(x, 70), _facts(gs)) for gs, x, _ in vals]}"
+        # the receiver: np.ma.array(action, mask=mask) with mask = 1 - np.array(action_masks[agent]) where that agent has a mask, None where it has none.
+        # Every expression the receiver and the mask may stand for is inspected together with the branch outcomes it is bound under: a conditional
+        # expression or an if / else statement, values passed directly or through temporaries (`m = action_masks[agent]` ... `m is None`), in either
+        # order of the arms
+        ok = True
+        why = ""
+        for gs0, v, d in _value_alts(cfg, node, recv):
+            if not (isinstance(v, ast.Call) and call_name(v) in ("np.ma.array", "np.ma.masked_array", "numpy.ma.array")):
+                ok, why = False, "receiver is not a masked array"
+                break
+            mk = get_kw(v, "mask", 1)
+            vals = _value_alts(cfg, d, mk, gs0) if mk is not None else []
+            hidden, absent = [], []
+            for gs, x, dx in vals:
+                xs = ast.unparse(_subst_temps(cfg, dx, x)).replace(" ", "") if x is not None else ""
+                facts = _facts(gs)
+                # 1 - np.array(<action masks>[K]) under `<action masks>[K] is not None`
+                key = xs[len("1-np.array("):-1] if xs.startswith(f"1-np.array({am}[") and xs.endswith(")") else None
+                hidden.append(key is not None and (f"{key}isnotNone", True) in facts)
+                absent.append(isinstance(x, ast.Constant) and x.value is None and any(t.startswith(f"{am}[") and t.endswith("isnotNone") and not p for t, p in facts))
+            if not (any(hidden) and all(h or a for h, a in zip(hidden, absent))):
+                ok = False
+            why = f"mask = {[(short(x, 70), _facts(gs)) for gs, x, _ in vals]}"
         ck.ob("C14.1", fn, c, ok, f"{label}: the per-agent arg-max runs over a masked array hiding illegal actions (mask = 1 - action_mask of that agent)", detail=why)
         ck.ob("C14.1", fn, c, const_value(get_kw(c, "axis")) == -1, f"{label}: the arg-max runs over the action axis")
     # env-defined actions overwrite with the environment's own actions under the agent's mask
-    sets = [n_ for n_ in walk_no_nested(fn.node) if isinstance(n_, ast.Assign) and isinstance(n_.targets[0], ast.Subscript) and isinstance(n_.targets[0].slice, ast.Subscript)
-            and dotted(n_.targets[0].slice.value) == gm]
-    for s in sets:
-        sl = ast.unparse(s.targets[0].slice)  # <agent masks>[<agent>]
-        ag = ast.unparse(s.targets[0].slice.slice)
-        ok = f"{eda}[{ag}][{sl}]" in ast.unparse(s.value)
+    # (an index held in a temporary, `sel = <agent masks>[agent]` ... `x[agent][sel] = y[agent][sel]`, is the same assignment)
+    sets = []
+    for n_ in walk_no_nested(fn.node):
+        if isinstance(n_, ast.Assign) and isinstance(n_.targets[0], ast.Subscript):
+            nd = cfg.node_of(n_)
+            sl_ = _subst_temps(cfg, nd, n_.targets[0].slice)
+            if isinstance(sl_, ast.Subscript) and dotted(sl_.value) == gm:
+                sets.append((n_, sl_, nd))
+    for s, sl_, nd in sets:
+        sl = ast.unparse(sl_)  # <agent masks>[<agent>]
+        ag = ast.unparse(sl_.slice)
+        ok = f"{eda}[{ag}][{sl}]" in ast.unparse(_subst_temps(cfg, nd, s.value))
         ck.ob("C14.1", fn, s, ok, f"{label}: environment-defined actions replace the policy's action exactly where the agent's mask says so")
     return n
 
@@ -601,20 +792,21 @@ def _policy_gradient(ck: Check, repo: Repo) -> None:
                   detail=f"the argument `{short(c.args[0], 40)}` is a {k} array at this point: numpy * Tensor raises TypeError, so a squashed policy cannot produce "
                          "an in-bounds action on this path",
                   construct=f"{q}: {short(c, 70)}")
-            gs = [(ast.unparse(g), pol) for g, pol, _ in cfg.guards_at(n)]
+            gs = _guard_facts(cfg, n)
             ck.ob("C14.3", fn, c, any("squash_output" in g and pol for g, pol in gs) and any("spaces.Box" in g and pol for g, pol in gs),
                   f"{q}: squashed continuous actions are rescaled to the action bounds", construct=f"{q}: rescale guard {short(c, 50)}")
         for c in clips:
             n = cfg.node_of(c)
-            gs = [(ast.unparse(g), pol) for g, pol, _ in cfg.guards_at(n)]
+            gs = _guard_facts(cfg, n)
             ok = any("squash_output" in g and not pol for g, pol in gs) and any("spaces.Box" in g and pol for g, pol in gs) and len(c.args) == 3 \
                 and dotted(c.args[1]).endswith(".low") and dotted(c.args[2]).endswith(".high") and dotted(c.args[1])[:-4] == dotted(c.args[2])[:-5]
             ck.ob("C14.3", fn, c, ok, f"{q}: un-squashed continuous actions are clipped to the action space's low / high", detail=short(c, 90))
         if q.endswith("get_action"):
             for c in calls + clips:
                 n = cfg.node_of(c)
-                gs = [(ast.unparse(g), pol) for g, pol, _ in cfg.guards_at(n)]
-                ck.ob("C14.3", fn, c, any("self.training" in g and ((g.startswith("not") and pol) or (not g.startswith("not") and not pol)) for g, pol in gs),
+                # (atoms of the known conditions: `not self.training` is the atom self.training with polarity False)
+                gs = _guard_facts(cfg, n)
+                ck.ob("C14.3", fn, c, any(g == "self.training" and not pol for g, pol in gs),
                       f"{q}: bounds are enforced in evaluation mode (not self.training)", construct=f"{q}: eval-mode guard {short(c, 50)}")
     ck.floor("C14.5", n_sites, 4, "scale_action call sites on the acting path")
 
@@ -647,6 +839,10 @@ _UCB = "agilerl/algorithms/neural_ucb_bandit.py"
 _DD = "agilerl/algorithms/ddpg.py"
 _MA = "agilerl/algorithms/maddpg.py"
 _PP = "agilerl/algorithms/ppo.py"
+_UCB_OLD = "        if action_mask is None:\n            action = np.argmax(action_values)\n        else:\n            inv_mask = 1 - action_mask\n            masked_action_values = np.ma.array(action_values, mask=inv_mask)\n            action = np.argmax(masked_action_values)\n"
+_PP_OLD = "        if not self.training and isinstance(self.action_space, spaces.Box):\n            if self.actor.squash_output:\n                action = self.actor.scale_action(action)\n            else:\n                action = np.clip(action, self.action_space.low, self.action_space.high)\n"
+_MA_OLD = "                mask = (\n                    1 - np.array(action_masks[agent])\n                    if action_masks[agent] is not None\n                    else None\n                )\n                action: np.ndarray = np.ma.array(action, mask=mask)\n                discrete_action_dict[agent] = action.argmax(axis=-1)\n"
+_MA_SET_OLD = "                    discrete_action_dict[agent][agent_masks[agent]] = (\n                        env_defined_actions[agent][agent_masks[agent]]\n                    )\n"
 VARIANTS = [
     ("rescale-softsign-filed-under-zero-one", "agilerl/networks/actors.py", '        if output_activation in ["Tanh", "Softsign"]:\n            prescaled_min, prescaled_max = -1.0, 1.0\n        elif output_activation in ["Sigmoid", "Softmax", "GumbelSoftmax"]:',
      '        if output_activation in ["Tanh"]:\n            prescaled_min, prescaled_max = -1.0, 1.0\n        elif output_activation in ["Sigmoid", "Softsign", "Softmax", "GumbelSoftmax"]:', "fire", "C14.10"),
@@ -698,4 +894,33 @@ VARIANTS = [
     ("dqn-candidates-conditional-expression-ok", _DQ, "        masked_policy_actions = torch.argmax(masked_q_values, dim=-1)\n", "        masked_policy_actions = torch.argmax(masked_q_values, dim=-1) if masked_q_values.dim() > 1 else torch.argmax(masked_q_values, dim=0)\n", "silent", None),
     ("dqn-candidates-conditional-expression-unmasked", _DQ, "        masked_policy_actions = torch.argmax(masked_q_values, dim=-1)\n", "        masked_policy_actions = torch.argmax(masked_q_values, dim=-1) if masked_q_values.dim() > 1 else torch.zeros_like(masked_random_actions)\n", "fire", "C14.1"),
     ("ppo-clip-bounds-swapped-space", _PP, "action = np.clip(action, self.action_space.low, self.action_space.high)", "action = np.clip(action, self.observation_space.low, self.action_space.high)", "fire", "C14.3"),
+    # round 4: one arg-max over a value that is the masked array on the mask path and the plain values otherwise = two arg-max calls in two branches
+    ("ucb-single-argmax-over-optionally-masked-values-ok", _UCB, _UCB_OLD,
+     "        if action_mask is not None:\n            action_values = np.ma.array(action_values, mask=1 - action_mask)\n        action = np.argmax(action_values)\n", "silent", None),
+    ("ucb-single-argmax-mask-not-inverted", _UCB, _UCB_OLD,
+     "        if action_mask is not None:\n            action_values = np.ma.array(action_values, mask=action_mask)\n        action = np.argmax(action_values)\n", "fire", "C14.1"),
+    ("ucb-single-argmax-masked-only-sometimes", _UCB, _UCB_OLD,
+     "        if action_mask is not None and len(action_values) > 2:\n            action_values = np.ma.array(action_values, mask=1 - action_mask)\n        action = np.argmax(action_values)\n", "fire", "C14.1"),
+    # a guard held in a single-definition flag stands for the conjuncts of its definition; `if f and s: A elif f: B` = `if f: if s: A else: B`
+    ("ppo-clip-guard-in-flag-ok", _PP, _PP_OLD,
+     "        clip_to_space = not self.training and isinstance(self.action_space, spaces.Box)\n        if clip_to_space and self.actor.squash_output:\n            action = self.actor.scale_action(action)\n        elif clip_to_space:\n            action = np.clip(action, self.action_space.low, self.action_space.high)\n", "silent", None),
+    ("ppo-clip-guard-in-flag-training-only", _PP, _PP_OLD,
+     "        clip_to_space = self.training and isinstance(self.action_space, spaces.Box)\n        if clip_to_space and self.actor.squash_output:\n            action = self.actor.scale_action(action)\n        elif clip_to_space:\n            action = np.clip(action, self.action_space.low, self.action_space.high)\n", "fire", "C14.3"),
+    ("ppo-clip-guard-in-flag-arms-not-exclusive", _PP, _PP_OLD,
+     "        clip_to_space = not self.training and isinstance(self.action_space, spaces.Box)\n        if clip_to_space:\n            action = np.clip(action, self.action_space.low, self.action_space.high)\n        elif clip_to_space and self.actor.squash_output:\n            action = self.actor.scale_action(action)\n", "fire", "C14.3"),
+    ("ppo-clip-guard-in-flag-overwritten", _PP, _PP_OLD,
+     "        clip_to_space = not self.training and isinstance(self.action_space, spaces.Box)\n        clip_to_space = clip_to_space or self.training\n        if clip_to_space and self.actor.squash_output:\n            action = self.actor.scale_action(action)\n        elif clip_to_space:\n            action = np.clip(action, self.action_space.low, self.action_space.high)\n", "fire", "C14.3"),
+    # values passed directly or through temporaries: the agent's mask read once, the masked array not named, the index of the forced actions named
+    ("maddpg-mask-through-temporaries-ok", _MA, _MA_OLD,
+     "                legal = action_masks[agent]\n                illegal = None if legal is None else 1 - np.array(legal)\n                chosen = np.ma.array(action, mask=illegal).argmax(axis=-1)\n                discrete_action_dict[agent] = chosen\n", "silent", None),
+    ("maddpg-mask-through-temporaries-not-inverted", _MA, _MA_OLD,
+     "                legal = action_masks[agent]\n                illegal = None if legal is None else np.array(legal)\n                chosen = np.ma.array(action, mask=illegal).argmax(axis=-1)\n                discrete_action_dict[agent] = chosen\n", "fire", "C14.1"),
+    ("maddpg-mask-through-temporaries-dropped-on-other-test", _MA, _MA_OLD,
+     "                legal = action_masks[agent]\n                illegal = None if (legal is None or env_defined_actions is None) else 1 - np.array(legal)\n                chosen = np.ma.array(action, mask=illegal).argmax(axis=-1)\n                discrete_action_dict[agent] = chosen\n", "fire", "C14.1"),
+    ("maddpg-mask-temporary-rebound", _MA, _MA_OLD,
+     "                legal = action_masks[agent]\n                illegal = None if legal is None else 1 - np.array(legal)\n                illegal = None\n                chosen = np.ma.array(action, mask=illegal).argmax(axis=-1)\n                discrete_action_dict[agent] = chosen\n", "fire", "C14.1"),
+    ("maddpg-forced-actions-index-temporary-ok", _MA, _MA_SET_OLD,
+     "                    forced = agent_masks[agent]\n                    discrete_action_dict[agent][forced] = env_defined_actions[agent][forced]\n", "silent", None),
+    ("maddpg-forced-actions-index-temporary-other-rows", _MA, _MA_SET_OLD,
+     "                    forced = agent_masks[agent]\n                    discrete_action_dict[agent][forced] = env_defined_actions[agent][~forced]\n", "fire", "C14.1"),
 ]
